@@ -817,22 +817,44 @@ bus_client_policy_optimize (BusClientPolicy *policy)
       switch (rule->type)
         {
         case BUS_POLICY_RULE_SEND:
+          /* Earlier rules may only be dropped if this rule matches every
+           * message in every situation: besides the header-field
+           * attributes that means any broadcast state, any number of fds,
+           * and requested as well as unrequested replies (an <allow> only
+           * covers unrequested replies with send_requested_reply="false"
+           * or eavesdrop="true", a <deny> only covers requested replies
+           * with send_requested_reply="true"). */
           remove_preceding =
             rule->d.send.message_type == DBUS_MESSAGE_TYPE_INVALID &&
             rule->d.send.path == NULL &&
             rule->d.send.interface == NULL &&
             rule->d.send.member == NULL &&
             rule->d.send.error == NULL &&
-            rule->d.send.destination == NULL;
+            rule->d.send.destination == NULL &&
+            rule->d.send.broadcast == BUS_POLICY_TRISTATE_ANY &&
+            rule->d.send.min_fds == 0 &&
+            rule->d.send.max_fds >= DBUS_MAXIMUM_MESSAGE_UNIX_FDS &&
+            (rule->allow ?
+             (!rule->d.send.requested_reply || rule->d.send.eavesdrop) :
+             rule->d.send.requested_reply);
           break;
         case BUS_POLICY_RULE_RECEIVE:
+          /* Likewise; additionally an <allow> only covers eavesdropped
+           * messages with eavesdrop="true" and a <deny> only covers
+           * non-eavesdropped ones with eavesdrop="false". */
           remove_preceding =
             rule->d.receive.message_type == DBUS_MESSAGE_TYPE_INVALID &&
             rule->d.receive.path == NULL &&
             rule->d.receive.interface == NULL &&
             rule->d.receive.member == NULL &&
             rule->d.receive.error == NULL &&
-            rule->d.receive.origin == NULL;
+            rule->d.receive.origin == NULL &&
+            rule->d.receive.min_fds == 0 &&
+            rule->d.receive.max_fds >= DBUS_MAXIMUM_MESSAGE_UNIX_FDS &&
+            (rule->allow ?
+             rule->d.receive.eavesdrop :
+             (!rule->d.receive.eavesdrop &&
+              rule->d.receive.requested_reply));
           break;
         case BUS_POLICY_RULE_OWN:
           remove_preceding =
